@@ -225,6 +225,21 @@ def check(ctx, prefixes=SCOPE_PREFIXES, P="C11", ids=None):
                           fi, fi.node, detail="aliaser=None -> settings.aliaser (or forwarded as is to a function that does)")
         ctx.require(n11 >= 6, f"public entry points with an aliaser parameter: {n11} found")
 
+    if P == "C11":
+        ctx.rule("C11.R12", "get_alias(obj).field is the static alias of the field wrapped in AliasedStr (so that the aliaser of the call is applied to it later, once); get_field(obj).field is the field descriptor", floor=2)
+        ag = model.func("apischema.objects.getters.AliasGetter.__getattribute__")
+        rets12 = [r for r in walk_no_nested(ag.node) if isinstance(r, ast.Return) and r.value is not None]
+        ok12 = len(rets12) == 1 and isinstance(rets12[0].value, ast.Call) and dotted(rets12[0].value.func) == "AliasedStr" and len(rets12[0].value.args) == 1 \
+            and isinstance(rets12[0].value.args[0], ast.Attribute) and rets12[0].value.args[0].attr == "alias" and "[name]" in norm(rets12[0].value.args[0].value)
+        ctx.check(ok12, "C11.R12", f"{ag.qualname}:alias", None,
+                  f"`{short(rets12[0], 70) if rets12 else ''}` is not AliasedStr(<field>.alias): an error yielded by a validator under get_alias(self).field is located under the Python name (or a string the aliaser of the call is never applied to) while deserialize consumes and reports the aliased key",
+                  ag, rets12[0] if rets12 else ag.node, detail="AliasedStr(fields[name].alias)")
+        fg = model.func("apischema.objects.getters.FieldGetter.__getattribute__")
+        ctx.check(any(isinstance(r, ast.Return) and r.value is not None and norm(r.value).endswith("[name]") for r in walk_no_nested(fg.node)), "C11.R12", f"{fg.qualname}:field", None, "get_field(obj).x no longer returns the field descriptor itself", fg, fg.node, detail="fields[name]")
+        for q12 in ("apischema.objects.getters.AliasGetter.__init__", "apischema.objects.getters.FieldGetter.__init__"):
+            f12 = model.func(q12)
+            ctx.check("object_fields2(obj)" in norm(f12.node), "C11.R12", f"{q12}:fields", None, "the getter is no longer built on the fields of the object's class", f12, f12.node, detail="self.fields = object_fields2(obj)", nontrivial=False)
+
     # ---------------- R2: sinks
     ctx.rule(ids["R2"], "every external-key sink receives the alias aliased exactly once", floor=12 if P == "C11" else 3)
     if P == "C11":
@@ -495,6 +510,8 @@ def fixtures(ctx):
 
 
 def mutants(mb):
+    mb.add_text("get-alias-returns-name", "apischema/objects/getters.py", 'return AliasedStr(object.__getattribute__(self, "fields")[name].alias)', 'return AliasedStr(object.__getattribute__(self, "fields")[name].name)', "C11.R12", "alias")
+    mb.add_text("get-alias-plain-str", "apischema/objects/getters.py", 'return AliasedStr(object.__getattribute__(self, "fields")[name].alias)', 'return object.__getattribute__(self, "fields")[name].alias', "C11.R12", "alias")
     mb.add_text("validate-identity-aliaser", "apischema/validation/validators.py", "    aliaser: Optional[Aliaser] = None,\n) -> T:\n    if aliaser is None:\n        from apischema import settings\n\n        aliaser = settings.aliaser\n", "    aliaser: Aliaser = lambda s: s,\n) -> T:\n", "C11.R11", "validate")
     mb.add_text("schema-inherits-pass-through", "apischema/json_schema/schema.py", "        # the schema must not depend on the serialization settings of the user\n        pass_through=PassThroughOptions(),\n", "", "C11.R10", "pass_through")
     mb.add_text("schema-default-global-aliaser", "apischema/json_schema/schema.py", "                    # keys are aliased with the rest of the schema\n                    aliaser=AliasedStr,\n", "", "C11.R10", "aliaser")
